@@ -28,7 +28,10 @@ def rule_pipeline(ctx):
     f = ctx.program.func("chord.evaluate", R)
     s = ctx.S.get(f.qual)
     adj = [c for c in s.calls() if c.callee == "util.adjust_intervals"]
-    need(len(adj) == 1, R, "chord.evaluate: single adjust_intervals call expected")
+    on_ref = [c for c in adj if c.args and c.args[0].op == "param" and role_of(c.args[0].a[0]) == "R"]
+    yield ob(R, f, "chord.evaluate:reference-not-adjusted", not on_ref, "the reference annotation is scored on its own span (only the estimate is padded/cropped to it)" if not on_ref else "the reference itself is passed through adjust_intervals (%s): padding it to an absolute time adds a no-chord stretch whose length depends on the time origin" % tm.show(on_ref[0].term, 3), node=on_ref[0].node if on_ref else None)
+    adj = [c for c in adj if c not in on_ref]
+    need(len(adj) == 1, R, "chord.evaluate: single adjust_intervals call on the estimate expected")
     a = adj[0]
     g = ctx.program.func("util.adjust_intervals")
     b = {}
@@ -244,7 +247,7 @@ RULES = [
     ("C12.FRAMEMAP", 4, rule_framemap),
     ("C12.NCEFORM", 5, rule_nceform_shared),
     ("C12.NCEGUARD", 2, rule_nceguard),
-    ("C12.PIPELINE", 20, rule_pipeline),
+    ("C12.PIPELINE", 21, rule_pipeline),
     ("C12.WEIGHTNORM", 2, rule_weightnorm),
     ("C12.SEGMERGE", 4, rule_segmerge),
     ("C12.FRAMEONLY", 10, rule_frameonly),
